@@ -128,31 +128,54 @@ def _cfg(name):
 # C55  strobe stretcher
 # =====================================================================================================
 
+# how the stretcher is instantiated: (domain argument, output= given)
+#   "default"  no domain argument (the function's default: sync)       "sync"  domain=m.d.sync
+#   "other>"   domain=m.d.usb, usb clocked faster than sync (x 2.5)     "other<" domain=m.d.usb, usb slower (x 1/3)
+_STRETCH_VARIANTS = [(d, o) for d in ("default", "sync", "other>", "other<") for o in (False, True)]
+
+
 def _stretch_driver(n, allow_delay, variant):
+    """The stretcher in a wrapper module that owns its clock domains.  Strobe, domain reset and output are driven /
+    sampled once per cycle of the *requested* domain, so hold times are judged in cycles of that domain."""
     use_repo()
     from amaranth import ClockDomain, Elaboratable, Module, Signal
     from luna.gateware.utils.cdc import stretch_strobe_signal
+    dom, out_given = variant
+    other = dom.startswith("other")
 
     class StretchDut(Elaboratable):
         def __init__(self):
             self.strobe = Signal()
             self.out = Signal()
-            self.sync = ClockDomain("sync")       # owned here, so that the domain reset is an input of the bench
+            self.sync = ClockDomain("sync")      # owned here, so that the domain reset is an input of the bench
+            self.usb = ClockDomain("usb")
 
         def elaborate(self, platform):
             m = Module()
             m.domains.sync = self.sync
             keep = Signal()                      # keeps the sync domain alive when to_cycles == 1
             m.d.sync += keep.eq(~keep)
-            if variant == 0:
-                o = stretch_strobe_signal(m, self.strobe, to_cycles=n, allow_delay=allow_delay)
-                m.d.comb += self.out.eq(o)
+            kw = {}
+            if other:
+                m.domains.usb = self.usb
+                keep2 = Signal()
+                m.d.usb += keep2.eq(~keep2)
+                kw["domain"] = m.d.usb
+            elif dom == "sync":
+                kw["domain"] = m.d.sync
+            if out_given:
+                stretch_strobe_signal(m, self.strobe, to_cycles=n, output=self.out, allow_delay=allow_delay, **kw)
             else:
-                stretch_strobe_signal(m, self.strobe, to_cycles=n, output=self.out, domain=m.d.sync,
-                                      allow_delay=allow_delay)
+                o = stretch_strobe_signal(m, self.strobe, to_cycles=n, allow_delay=allow_delay, **kw)
+                m.d.comb += self.out.eq(o)
             return m
 
     dut = StretchDut()
+    if other:
+        usb_period = 1e-6
+        sync_period = 2.5e-6 if dom == "other>" else 1e-6 / 3
+        return CycleDriver(dut, {"s": dut.strobe, "x": dut.usb.rst}, {"o": dut.out}, domain="usb",
+                           clocks={"usb": usb_period, "sync": sync_period}, bool_inputs=("s", "x"), bool_outputs=("o",))
     return CycleDriver(dut, {"s": dut.strobe, "x": dut.sync.rst}, {"o": dut.out}, bool_inputs=("s", "x"),
                        bool_outputs=("o",))
 
@@ -211,6 +234,9 @@ def check_C55(rep):
     tm = _Timer(rep)
     rep.rule = ("real stretcher cycles recorded and validated against Stretch.tla; a cycle is non-trivial when the strobe "
                 "or the output is high; distinct by (to_cycles, allow_delay, strobe, output, cycles since last strobe)")
+    rep.assume("hold times are counted in cycles of the domain the caller requested (default sync, explicit m.d.sync, or "
+               "another domain clocked 2.5x faster / 3x slower than sync); strobe and domain reset change once per cycle "
+               "of that domain")
     rep.assume("when allow_delay is set the pulse may start in the strobe's cycle or one cycle later (same choice for "
                "the life of an instance); without allow_delay it starts in the strobe's cycle")
     rep.assume("the strobe input may take any value in any cycle (no environment restriction); the reset of the clock "
@@ -231,12 +257,20 @@ def check_C55(rep):
                         num=80 if quick else 600, depth=40, seed=rep.seed * 11 + 5, env=JVM_ENV)
     for b in behs:
         st0 = b[0][1]
-        jobs.append((st0["n"], st0["allowDelay"], 0, "tlc-simulate", [(st["strobe"], st["rst"]) for _, st in b[1:]]))
+        jobs.append((st0["n"], st0["allowDelay"], _STRETCH_VARIANTS[len(jobs) % 8], "tlc-simulate",
+                     [(st["strobe"], st["rst"]) for _, st in b[1:]]))
     lengths = list(range(1, 9)) + ([12, 17] if quick else [9, 11, 12, 16, 17, 24, 31, 33])
-    for n in lengths:
+    for i, n in enumerate(lengths):
         for allow in (False, True):
-            for variant in ((n + allow) % 2,) if quick else (0, 1):
+            # every instantiation style (domain argument x output= given) for every (to_cycles, allow_delay): the whole
+            # stimulus set on one of them (rotating; all of them in the thorough tier), a short set on the others
+            primary = _STRETCH_VARIANTS[(2 * i + allow) % 8]
+            short = ("single", "retrigger@1", "retrigger@%d" % n, "held%d" % (n + 1), "domain-reset@1",
+                     "random0.30+domain-resets")
+            for variant in _STRETCH_VARIANTS:
                 for origin, s in _stretch_stimuli(rep.rng, n, quick):
+                    if quick and variant != primary and origin not in short:
+                        continue
                     jobs.append((n, allow, variant, origin, s))
 
     tm.phase("drive_real_gateware")
@@ -256,7 +290,7 @@ def check_C55(rep):
                 rep.nontriv((n, allow, r["s"], r["x"], r["o"], ago))
         trace = {"cfg": {"n": n, "allow_delay": bool(allow)}, "steps": rec}
         items.append((trace, {"dut": "stretch_strobe_signal", "to_cycles": n, "allow_delay": bool(allow),
-                              "variant": variant, "origin": origin}))
+                              "domain": variant[0], "output_given": variant[1], "origin": origin}))
     rep.sample({"cfg": items[0][0]["cfg"], "origin": items[0][1]["origin"], "first_cycles": items[0][0]["steps"][:8]})
     rep.sample({"cfg": items[-1][0]["cfg"], "origin": items[-1][1]["origin"], "first_cycles": items[-1][0]["steps"][:8]})
 
@@ -264,7 +298,7 @@ def check_C55(rep):
     # 4. validate with TLC
     cfg = tlc.render_cfg(_cfg("StretchTrace.cfg.tmpl"), {"MaxN": max(lengths)})
     validate_group(rep, SPEC_DIR, "StretchTrace", cfg, items, classify=_stretch_classify,
-                   steps_of=lambda t: len(t["steps"]), env=JVM_ENV)
+                   steps_of=lambda t: len(t["steps"]), env=JVM_ENV, chunk=2500)
     tm.phase("end")
 
 
